@@ -18,6 +18,8 @@ def _bound(expr):
         return (unparse(expr.left), k)
     if isinstance(expr, (ast.Name, ast.Attribute)):
         return (unparse(expr), 0)
+    if isinstance(expr, ast.Call) and isinstance(expr.func, ast.Name) and expr.func.id == "len" and len(expr.args) == 1:
+        return (unparse(expr), 0)
     return None
 
 
